@@ -93,3 +93,23 @@ func Shard() (int, int) { return envInt("RV_SHARD", 0), max(envInt("RV_SHARDS", 
 func Thorough() bool { return os.Getenv("RV_TIER") == "thorough" }
 
 func Seed() int64 { return int64(envInt("RV_SEED", 1)) }
+
+// Merge folds another collector's findings into c.
+func (c *Collector) Merge(o *Collector) {
+	for _, v := range o.out.Result.Violations {
+		c.vc[v.Sig]++
+		if c.vc[v.Sig] <= 3 {
+			c.out.Result.Violations = append(c.out.Result.Violations, v)
+		}
+	}
+	for k, v := range o.out.Result.Cov {
+		c.out.Result.Cov[k] += v
+	}
+	for k := range o.distinct {
+		c.Distinct(k)
+	}
+	c.out.Evaluations += o.out.Evaluations
+}
+
+// CovGet returns a coverage counter.
+func (c *Collector) CovGet(k string) int { return c.out.Result.Cov[k] }
